@@ -389,7 +389,7 @@ PROPS = {
     },
 }
 
-HOOK_COMMITS = ["4846d14", "4c64919", "461eacc"]
+HOOK_COMMITS = ["4846d14", "4c64919", "461eacc", "6e4d56e"]
 
 ENGINES = [
     {"name": "openapi_mc", "path": "/verif/lib/c15_runner.py", "serves_properties": ["C15"],
